@@ -1,1 +1,355 @@
-//! placeholder
+//! C30: a database produced by the bulk loader has the same logical content and answers every
+//! query the same as a database built by committing the same nodes and relationships.
+//!
+//! Oracle (differential): one generated node/relationship set is loaded through
+//! `ndb_core::bulkload` into database B and through write transactions into database T (same
+//! input order, so internal ids are comparable). Every dump view, the Cypher view and a set of
+//! generated queries must agree; again after T is compacted and both are reopened; and again
+//! after the same extra transaction was committed to both.
+
+use crate::common::cypher::{canon_rows, cypher_view, run_read, sorted};
+use crate::common::dump::{Universe, dump_db, panic_msg};
+use crate::common::model::{Facts, diff_facts};
+use crate::common::report::{Args, CaseOut, Report, Violation, par_cases, threads};
+use crate::common::rng::Rng;
+use crate::common::sut::ScratchDir;
+use crate::common::value::{canon, gen_scalar_simple, gen_value, to_json};
+use crate::common::{diff_signature, facts_diff_json};
+use ndb_core::query::{Params, Value};
+use ndb_core::{BulkEdge, BulkNode, Db, PropertyValue as PV};
+use serde_json::json;
+use std::collections::BTreeMap;
+use std::panic::{AssertUnwindSafe, catch_unwind};
+use std::time::{Duration, Instant};
+
+const LABELS: [&str; 4] = ["A", "B", "R", "Person"];
+const TYPES: [&str; 3] = ["R", "S", "KNOWS"];
+const KEYS: [&str; 4] = ["k", "name", "v", "w"];
+
+#[derive(Clone, Debug)]
+pub struct Input {
+    pub nodes: Vec<(u64, String, BTreeMap<String, PV>)>,
+    pub edges: Vec<(usize, String, usize, BTreeMap<String, PV>)>,
+    pub family: &'static str,
+}
+
+fn gen_props(rng: &mut Rng, simple: bool) -> BTreeMap<String, PV> {
+    let mut m = BTreeMap::new();
+    for k in KEYS {
+        if rng.chance(2, 5) {
+            let v = if simple { gen_scalar_simple(rng) } else { gen_value(rng, 0) };
+            if !matches!(v, PV::Null) {
+                m.insert(k.to_string(), v);
+            }
+        }
+    }
+    m
+}
+
+fn gen_input(seed: u64, k: usize) -> Input {
+    let mut rng = Rng::derive(seed, k as u64);
+    let family = ["no-relationships", "parallel-relationships", "plain", "self-loops", "dense"][k % 5];
+    let n = 1 + rng.below(if family == "dense" { 6 } else { 12 });
+    let simple = k % 2 == 0;
+    let nodes: Vec<_> = (0..n).map(|i| (5000 + i as u64 * 3, rng.pick(&LABELS).to_string(), gen_props(&mut rng, simple))).collect();
+    let mut edges = Vec::new();
+    let ne = match family {
+        "no-relationships" => 0,
+        "dense" => n * 3,
+        _ => rng.below(2 * n + 1),
+    };
+    for _ in 0..ne {
+        let s = rng.below(n);
+        let d = if family == "self-loops" && rng.chance(1, 3) { s } else { rng.below(n) };
+        let t = rng.pick(&TYPES).to_string();
+        edges.push((s, t, d, gen_props(&mut rng, true)));
+    }
+    if family == "parallel-relationships" && !edges.is_empty() {
+        // duplicates of the same (src, type, dst): without properties, so that the comparison is
+        // about multiplicity and not about which copy's properties win
+        for _ in 0..1 + rng.below(3) {
+            let e = edges[rng.below(edges.len())].clone();
+            edges.push((e.0, e.1, e.2, BTreeMap::new()));
+        }
+    }
+    Input { nodes, edges, family }
+}
+
+fn input_json(inp: &Input) -> serde_json::Value {
+    json!({
+        "family": inp.family,
+        "nodes": inp.nodes.iter().map(|(e, l, p)| json!({"ext": e, "label": l, "props": p.iter().map(|(k, v)| (k.clone(), to_json(v))).collect::<serde_json::Map<_, _>>()})).collect::<Vec<_>>(),
+        "edges": inp.edges.iter().map(|(s, t, d, p)| json!({"src": s, "type": t, "dst": d, "props": p.iter().map(|(k, v)| (k.clone(), to_json(v))).collect::<serde_json::Map<_, _>>()})).collect::<Vec<_>>(),
+    })
+}
+
+fn load_bulk(base: &std::path::Path, inp: &Input) -> Result<(), String> {
+    let nodes: Vec<BulkNode> = inp.nodes.iter().map(|(e, l, p)| BulkNode { external_id: *e, label: l.clone(), properties: p.clone() }).collect();
+    let edges: Vec<BulkEdge> = inp
+        .edges
+        .iter()
+        .map(|(s, t, d, p)| BulkEdge { src_external_id: inp.nodes[*s].0, rel_type: t.clone(), dst_external_id: inp.nodes[*d].0, properties: p.clone() })
+        .collect();
+    let b = base.to_path_buf();
+    match catch_unwind(AssertUnwindSafe(|| ndb_core::bulkload(&b, nodes, edges))) {
+        Ok(Ok(())) => Ok(()),
+        Ok(Err(e)) => Err(format!("error: {e}")),
+        Err(p) => Err(format!("panic: {}", panic_msg(&p))),
+    }
+}
+
+fn load_txn(db: &Db, inp: &Input, split: usize) -> Result<(), String> {
+    let es = |e: ndb_core::Error| e.to_string();
+    // nodes first (possibly in several transactions), then relationships
+    let chunks: Vec<&[(u64, String, BTreeMap<String, PV>)]> = inp.nodes.chunks(split.max(1)).collect();
+    let mut ids = Vec::new();
+    for ch in chunks {
+        let mut txn = db.begin_write();
+        for (e, l, p) in ch {
+            let lid = txn.get_or_create_label(l).map_err(es)?;
+            let id = txn.create_node(*e, lid).map_err(es)?;
+            ids.push(id);
+            for (k, v) in p {
+                txn.set_node_property(id, k.clone(), v.clone()).map_err(es)?;
+            }
+        }
+        txn.commit().map_err(es)?;
+    }
+    let mut txn = db.begin_write();
+    for (s, t, d, p) in &inp.edges {
+        let tid = txn.get_or_create_rel_type(t).map_err(es)?;
+        txn.create_edge(ids[*s], tid, ids[*d]);
+        for (k, v) in p {
+            txn.set_edge_property(ids[*s], tid, ids[*d], k.clone(), v.clone()).map_err(es)?;
+        }
+    }
+    txn.commit().map_err(es)
+}
+
+fn pv_to_value(v: &PV) -> Value {
+    match v {
+        PV::Null => Value::Null,
+        PV::Bool(b) => Value::Bool(*b),
+        PV::Int(i) => Value::Int(*i),
+        PV::Float(f) => Value::Float(*f),
+        PV::String(s) => Value::String(s.clone()),
+        PV::DateTime(t) => Value::DateTime(*t),
+        PV::Blob(b) => Value::Blob(b.clone()),
+        PV::List(xs) => Value::List(xs.iter().map(pv_to_value).collect()),
+        PV::Map(m) => Value::Map(m.iter().map(|(k, x)| (k.clone(), pv_to_value(x))).collect()),
+    }
+}
+
+/// Generated read queries: (text, params-as-one-value).
+fn queries(inp: &Input, rng: &mut Rng) -> Vec<(String, Option<Value>)> {
+    let mut qs: Vec<(String, Option<Value>)> = Vec::new();
+    for l in LABELS {
+        qs.push((format!("MATCH (n:{l}) RETURN id(n) AS i"), None));
+    }
+    for t in TYPES {
+        qs.push((format!("MATCH (a)-[:{t}]->(b) RETURN id(a) AS a, id(b) AS b"), None));
+        qs.push((format!("MATCH (b)<-[:{t}]-(a) RETURN id(a) AS a, id(b) AS b"), None));
+    }
+    qs.push(("MATCH (a)-->(b)-->(c) RETURN id(a) AS a, id(b) AS b, id(c) AS c".into(), None));
+    qs.push(("MATCH (a)<--(b)<--(c) RETURN id(a) AS a, id(b) AS b, id(c) AS c".into(), None));
+    qs.push(("MATCH (a)-[*1..2]->(b) RETURN id(a) AS a, id(b) AS b".into(), None));
+    qs.push(("MATCH (a)-[r]-(b) RETURN id(a) AS a, type(r) AS t, id(b) AS b".into(), None));
+    qs.push(("MATCH ()-[r]->() RETURN type(r) AS t, count(*) AS c".into(), None));
+    qs.push(("MATCH (n) RETURN labels(n)[0] AS l, count(*) AS c".into(), None));
+    qs.push(("MATCH (n) OPTIONAL MATCH (n)-[r]->(m) RETURN id(n) AS n, type(r) AS t, id(m) AS m".into(), None));
+    qs.push(("MATCH (a)-[r:R|S]->(b) WHERE id(a) <= id(b) RETURN id(a) AS a, id(b) AS b, r.k AS k".into(), None));
+    for k in KEYS {
+        qs.push((format!("MATCH (n) WHERE n.{k} IS NOT NULL RETURN id(n) AS i, n.{k} AS v"), None));
+        qs.push((format!("MATCH ()-[r]->() WHERE r.{k} IS NOT NULL RETURN r.{k} AS v"), None));
+    }
+    // equality lookups with values that exist
+    let mut vals: Vec<(String, PV)> = Vec::new();
+    for (_, _, p) in &inp.nodes {
+        for (k, v) in p {
+            vals.push((k.clone(), v.clone()));
+        }
+    }
+    for _ in 0..6.min(vals.len()) {
+        let (k, v) = vals[rng.below(vals.len())].clone();
+        qs.push((format!("MATCH (n) WHERE n.{k} = $v RETURN id(n) AS i"), Some(pv_to_value(&v))));
+        let l = rng.pick(&LABELS);
+        qs.push((format!("MATCH (n:{l} {{{k}: $v}}) RETURN id(n) AS i"), Some(pv_to_value(&v))));
+    }
+    qs
+}
+
+fn full(db: &Db) -> Facts {
+    let keys: Vec<String> = KEYS.iter().map(|s| s.to_string()).collect();
+    let types: Vec<String> = TYPES.iter().map(|s| s.to_string()).collect();
+    let mut f = dump_db(db, &Universe { keys: &keys, types: &types });
+    f.extend(cypher_view(db));
+    f
+}
+
+fn viol(seed: u64, k: usize, stage: &str, what: String, diff: &[(String, String, String)], inp: &Input, extra: serde_json::Value) -> Violation {
+    let sig = if diff.is_empty() { crate::storemon::normalise_msg(&what) } else { diff_signature(diff) };
+    Violation {
+        signature: format!("C30|{stage}:{sig}|{}", inp.family),
+        summary: what,
+        detail: json!({"input": input_json(inp), "diff": facts_diff_json(&diff[..diff.len().min(12)], "transactional", "bulk"), "extra": extra}),
+        replay: json!({"engine":"storemon","property":"C30","seed":seed,"case":k}),
+    }
+}
+
+fn compare_queries(seed: u64, k: usize, stage: &str, t: &Db, b: &Db, inp: &Input, out: &mut CaseOut) -> Option<Violation> {
+    let mut rng = Rng::derive(seed ^ 0x51ed, k as u64);
+    for (q, pv) in queries(inp, &mut rng) {
+        let mut params = Params::new();
+        if let Some(v) = &pv {
+            params.insert("v", v.clone());
+        }
+        let rt = run_read(t, &q, &params, true);
+        let rb = run_read(b, &q, &params, true);
+        out.count("queries_compared", 1);
+        match (rt, rb) {
+            (Ok(x), Ok(y)) => {
+                let (x, y) = (sorted(canon_rows(&x, false)), sorted(canon_rows(&y, false)));
+                if !x.is_empty() {
+                    out.count("queries_with_rows", 1);
+                }
+                if x != y {
+                    return Some(viol(seed, k, &format!("{stage}-query-rows-differ"), format!("query answers differ between the two databases: {q}"), &[], inp, json!({"query": q, "param_v": pv.as_ref().map(|v| crate::common::cypher::canon_value(v, false)), "transactional_rows": x, "bulk_rows": y})));
+                }
+            }
+            (Err(e1), Err(_)) => {
+                out.inconclusive(&format!("query-fails-on-both:{}", crate::storemon::normalise_msg(&e1.to_string())));
+            }
+            (Ok(_), Err(e)) => return Some(viol(seed, k, &format!("{stage}-query-fails-on-bulk-only"), format!("query fails only on the bulk-loaded database: {q}: {e}"), &[], inp, json!({"query": q}))),
+            (Err(e), Ok(_)) => return Some(viol(seed, k, &format!("{stage}-query-fails-on-transactional-only"), format!("query fails only on the transactional database: {q}: {e}"), &[], inp, json!({"query": q}))),
+        }
+    }
+    None
+}
+
+fn run_case(seed: u64, k: usize, out: &mut CaseOut) -> Option<Violation> {
+    let inp = gen_input(seed, k);
+    let (dt, dbk) = (ScratchDir::new("c30t"), ScratchDir::new("c30b"));
+    out.evaluations += 1;
+    out.count("pairs", 1);
+    out.count(&format!("pairs.{}", inp.family), 1);
+    out.cell(format!("{}:nodes={}:edges={}", inp.family, inp.nodes.len().min(9), (inp.edges.len() / 4).min(6)));
+    if let Err(e) = load_bulk(&dbk.db_base(), &inp) {
+        return Some(viol(seed, k, "bulk-load-failed", format!("the bulk loader failed on a well-formed input: {e}"), &[], &inp, json!({})));
+    }
+    let t = match Db::open(dt.db_base()) {
+        Ok(d) => d,
+        Err(_) => {
+            out.inconclusive("open");
+            return None;
+        }
+    };
+    if let Err(e) = load_txn(&t, &inp, 1 + k % 4) {
+        out.inconclusive(&format!("transactional-load-failed:{}", crate::storemon::normalise_msg(&e)));
+        return None;
+    }
+    let b = match catch_unwind(AssertUnwindSafe(|| Db::open(dbk.db_base()))) {
+        Ok(Ok(d)) => d,
+        Ok(Err(e)) => return Some(viol(seed, k, "open-of-bulk-loaded-failed", format!("the bulk-loaded database does not open: {e}"), &[], &inp, json!({}))),
+        Err(p) => return Some(viol(seed, k, "open-of-bulk-loaded-panicked", format!("opening the bulk-loaded database panicked: {}", panic_msg(&p)), &[], &inp, json!({}))),
+    };
+    let d = diff_facts(&full(&t), &full(&b), usize::MAX);
+    if !d.is_empty() {
+        return Some(viol(seed, k, "content-differs", "dump of the bulk-loaded database differs from the transactional one".into(), &d, &inp, json!({})));
+    }
+    if let Some(v) = compare_queries(seed, k, "fresh", &t, &b, &inp, out) {
+        return Some(v);
+    }
+    // compact T (so both are segment-backed), reopen both
+    if t.compact().is_err() {
+        out.inconclusive("compact-of-transactional-failed");
+        return None;
+    }
+    drop(t);
+    drop(b);
+    let (t, b) = match (Db::open(dt.db_base()), catch_unwind(AssertUnwindSafe(|| Db::open(dbk.db_base())))) {
+        (Ok(t), Ok(Ok(b))) => (t, b),
+        (Ok(_), Ok(Err(e))) => return Some(viol(seed, k, "reopen-of-bulk-loaded-failed", format!("the bulk-loaded database does not reopen: {e}"), &[], &inp, json!({}))),
+        (Ok(_), Err(p)) => return Some(viol(seed, k, "reopen-of-bulk-loaded-panicked", panic_msg(&p), &[], &inp, json!({}))),
+        _ => {
+            out.inconclusive("reopen-of-transactional-failed");
+            return None;
+        }
+    };
+    let d = diff_facts(&full(&t), &full(&b), usize::MAX);
+    if !d.is_empty() {
+        return Some(viol(seed, k, "content-differs-after-compact+reopen", "after compaction of the transactional database and a reopen of both, the dumps differ".into(), &d, &inp, json!({})));
+    }
+    if let Some(v) = compare_queries(seed, k, "reopened", &t, &b, &inp, out) {
+        return Some(v);
+    }
+    out.count("pairs_compared_after_reopen", 1);
+    // the same extra transaction on both: a new node linked to node 0, a property overwrite
+    let extra = |db: &Db| -> Result<(), String> {
+        let es = |e: ndb_core::Error| e.to_string();
+        let mut txn = db.begin_write();
+        let l = txn.get_or_create_label("A").map_err(es)?;
+        let r = txn.get_or_create_rel_type("S").map_err(es)?;
+        let id = txn.create_node(999_999, l).map_err(es)?;
+        txn.create_edge(0, r, id);
+        txn.create_edge(id, r, 0);
+        txn.set_node_property(0, "k".into(), PV::Int(77)).map_err(es)?;
+        txn.set_node_property(id, "name".into(), PV::String("late".into())).map_err(es)?;
+        txn.commit().map_err(es)
+    };
+    let (rt, rb) = (extra(&t), catch_unwind(AssertUnwindSafe(|| extra(&b))));
+    match (rt, rb) {
+        (Ok(()), Ok(Ok(()))) => {
+            let d = diff_facts(&full(&t), &full(&b), usize::MAX);
+            if !d.is_empty() {
+                return Some(viol(seed, k, "content-differs-after-later-write", "after the same extra transaction the dumps differ".into(), &d, &inp, json!({})));
+            }
+            out.count("pairs_compared_after_later_write", 1);
+        }
+        (Ok(()), Ok(Err(e))) => return Some(viol(seed, k, "later-write-fails-on-bulk-only", format!("a later transaction fails only on the bulk-loaded database: {e}"), &[], &inp, json!({}))),
+        (Ok(()), Err(p)) => return Some(viol(seed, k, "later-write-panics-on-bulk-only", panic_msg(&p), &[], &inp, json!({}))),
+        _ => out.inconclusive("later-write-failed-on-transactional"),
+    }
+    let _ = canon;
+    None
+}
+
+pub fn main(args: &Args) -> Report {
+    let mut rep = Report::new(
+        "C30",
+        &args.tier,
+        args.seed,
+        "exploration",
+        "generated node/relationship sets (families: no relationships, parallel relationships, self loops, dense, plain; one label per node as the bulk API requires; label and type names shared; all property kinds) loaded by ndb_core::bulkload and by write transactions in the same order; all dump views, the Cypher view and ~45 generated read queries (label scans, typed expansions in both directions, two-hop, variable length, OPTIONAL MATCH, aggregation, equality lookups with stored values) are compared, again after compaction+reopen and after the same later transaction. A cell is (family, node bucket, edge bucket)",
+    );
+    rep.assume("internal ids are compared because both loaders assign them in input order");
+    if let Some(p) = &args.replay {
+        let j: serde_json::Value = serde_json::from_str(&std::fs::read_to_string(p).expect("read replay")).expect("json");
+        let mut out = CaseOut::default();
+        if let Some(v) = run_case(j["seed"].as_u64().unwrap(), j["case"].as_u64().unwrap() as usize, &mut out) {
+            out.violations.push(v);
+        }
+        rep.out = out;
+        return rep;
+    }
+    let n = if args.thorough() { 5000 } else { 250 };
+    let deadline = Instant::now() + Duration::from_secs(args.budget_s(120, 1200));
+    let seed = args.seed;
+    let (out, done) = par_cases(n, threads(), Some(deadline), |k| {
+        let mut out = CaseOut::default();
+        if let Some(v) = run_case(seed, k, &mut out) {
+            out.violations.push(v);
+        }
+        if k < 3 {
+            out.samples.push(json!({"case": k, "input": input_json(&gen_input(seed, k))}));
+        }
+        out
+    });
+    rep.out = out;
+    rep.extra.insert("cases_done".into(), json!(done));
+    let t = args.thorough();
+    rep.floor("pairs", rep.counter("pairs"), if t { 2000 } else { 200 });
+    rep.floor("pairs without relationships", rep.counter("pairs.no-relationships"), if t { 400 } else { 40 });
+    rep.floor("pairs with parallel relationships", rep.counter("pairs.parallel-relationships"), if t { 400 } else { 40 });
+    rep.floor("queries compared", rep.counter("queries_compared"), if t { 50_000 } else { 5000 });
+    rep
+}
